@@ -9,7 +9,8 @@
 (* depth-first state queue.  On rejection the postcondition prints         *)
 (* STUCK <index of the first event no behaviour can consume>.              *)
 (*                                                                         *)
-(* events:  {"ev":"call","c":<client>,"op":"r"|"w","n":<node>,"v":<int>}   *)
+(* events:  {"ev":"call","c":<client>,"op":"r"|"w"|"n","n":<node>,"v":<int>} *)
+(*             (op "n": a write whose ret carries a Bad status -- refused)  *)
 (*             (for a read, v of the call event = the value its ret carries) *)
 (*          {"ev":"ret","c":<client>,"v":<int>}     (v: value read / written)*)
 (*          {"ev":"fail","c":<client>}                                     *)
